@@ -280,7 +280,8 @@ def evaluate_jobs(out, rc, err, var, expect, lines_by_id):
     return V, cnt, seen
 
 
-MGR_LEVEL_CALLS = ("GET_NEXT_BURST", "SUBMIT_BURST", "FLUSH_BURST", "imb_set_session")
+MGR_LEVEL_CALLS = ("GET_NEXT_BURST", "SUBMIT_BURST", "FLUSH_BURST", "imb_set_session", "SUBMIT_HASH_BURST", "SUBMIT_CIPHER_BURST",
+                   "SUBMIT_AEAD_BURST")
 
 
 def evaluate_direct(out, rc, err, var):
